@@ -1,13 +1,19 @@
 #!/usr/bin/env python3
-"""Apply every seeded change to /repo's working tree in turn, run the quick check of its property, revert.
+"""Apply every seeded change to a scratch worktree of /repo HEAD in turn, run the quick check of its property against it (VERIF_REPO), revert.
 usage: seed_matrix.py [seed-name ...]   (default: all under /verif/seeded)
 Writes the outcome into seeded/<name>/meta.json ("check") and the table seeded/RESULTS.md.
-/repo must be clean; it is left clean (git checkout -- .)."""
+/repo itself is not touched; the worktree and the scratch evidence/replay directory are removed at exit."""
 import json, os, re, subprocess, sys, time
 ROOT = "/verif"
-names = sys.argv[1:] or sorted(d for d in os.listdir(f"{ROOT}/seeded") if os.path.isdir(f"{ROOT}/seeded/{d}"))
-if subprocess.run(["git", "-C", "/repo", "status", "--porcelain", "--untracked-files=no"], capture_output=True, text=True).stdout.strip():
-    sys.exit("/repo working tree is not clean")
+JOBS = ["--jobs", os.environ.get("SEED_JOBS", "16")]
+names = [a for a in sys.argv[1:]] or sorted(d for d in os.listdir(f"{ROOT}/seeded") if os.path.isdir(f"{ROOT}/seeded/{d}"))
+import tempfile, atexit
+WT = tempfile.mkdtemp(prefix="seedmx_", dir="/tmp")   # scratch worktree of /repo HEAD, removed at exit; /repo itself is never touched
+subprocess.run(["git", "-C", "/repo", "worktree", "add", "-q", "--detach", "--force", WT, "HEAD"], check=True)
+atexit.register(lambda: subprocess.run(["git", "-C", "/repo", "worktree", "remove", "--force", WT]))
+OUTD = tempfile.mkdtemp(prefix="seedmx_out_", dir="/tmp")
+atexit.register(lambda: __import__("shutil").rmtree(OUTD, ignore_errors=True))
+ENV = dict(os.environ, VERIF_REPO=WT, VERIF_OUT=OUTD)
 head = subprocess.run(["git", "-C", "/repo", "rev-parse", "--short", "HEAD"], capture_output=True, text=True).stdout.strip()
 for n in names:
     d = f"{ROOT}/seeded/{n}"
@@ -15,7 +21,7 @@ for n in names:
     prop = meta["property"]
     extra = meta.get("also_checked_with", [])
     res = {"repo_head": head}
-    r = subprocess.run(["git", "-C", "/repo", "apply", "--whitespace=nowarn", f"{d}/patch.diff"], capture_output=True, text=True)
+    r = subprocess.run(["git", "-C", WT, "apply", "--whitespace=nowarn", f"{d}/patch.diff"], capture_output=True, text=True)
     if r.returncode != 0:
         res["applies"] = False
         res["error"] = r.stderr[-300:]
@@ -24,13 +30,13 @@ for n in names:
         try:
             for pid in [prop] + extra:
                 t = time.time()
-                p = subprocess.run([f"{ROOT}/check", pid, "--tier", "quick"], capture_output=True, text=True, cwd=ROOT)
+                p = subprocess.run([f"{ROOT}/check", pid, "--tier", "quick"] + JOBS, capture_output=True, text=True, cwd=ROOT, env=ENV)
                 out = p.stdout + p.stderr
                 obl = sorted(set(re.findall(r"obligation=(\S+)", out)))
                 res[pid] = {"exit": p.returncode, "violation_lines": len(re.findall(r"^VIOLATION ", out, re.M)), "obligations": obl[:12],
                             "seconds": round(time.time() - t), "summary": out.strip().splitlines()[-1][:200]}
         finally:
-            subprocess.run(["git", "-C", "/repo", "checkout", "--", "."], check=True)
+            subprocess.run(["git", "-C", WT, "checkout", "--", "."], check=True)
     meta["check"] = res
     json.dump(meta, open(f"{d}/meta.json", "w"), indent=1)
     print(n, json.dumps(res)[:300], flush=True)
